@@ -19,6 +19,9 @@ import (
 type c08firstCase struct {
 	Pairs   []c08case `json:"pairs"`
 	Workers int       `json:"workers"`
+	// "left" | "right" | "center": the very first alignment of the process is PELeftAlign / PERightAlign / PECenterAlign on
+	// pair 0 (each of them fills the score tables itself when nothing did before); it is repeated at the end
+	Api string `json:"api,omitempty"`
 }
 
 type c08firstRes struct {
@@ -38,6 +41,21 @@ type c08firstObs struct {
 	Diff       []int         `json:"diff"`
 	Concurrent []c08firstRes `json:"concurrent,omitempty"` // only for the differing pairs
 	Serial     []c08firstRes `json:"serial,omitempty"`
+	ApiFirst   *c08sp        `json:"apifirst,omitempty"`
+	ApiAgain   *c08sp        `json:"apiagain,omitempty"`
+}
+
+func c08firstApi(which string, c c08case) *c08sp {
+	sa, sb := c08mk("A", c.A, c.QA), c08mk("B", c.B, c.QB)
+	return c08side(func() (int, []int) {
+		switch which {
+		case "left":
+			return obialign.PELeftAlign(sa, sb, c.Gap, c.Scale, obialign.NilPEAlignArena)
+		case "right":
+			return obialign.PERightAlign(sa, sb, c.Gap, c.Scale, obialign.NilPEAlignArena)
+		}
+		return obialign.PECenterAlign(sa, sb, c.Gap, c.Scale, obialign.NilPEAlignArena)
+	})
 }
 
 func c08firstAlign(c c08case, arena obialign.PEAlignArena, shifts *map[int]int) (r c08firstRes) {
@@ -55,6 +73,10 @@ func c08firstRun(c c08firstCase) any {
 	w := c.Workers
 	if w < 1 {
 		w = 1
+	}
+	var apiFirst *c08sp
+	if c.Api != "" && len(c.Pairs) > 0 {
+		apiFirst = c08firstApi(c.Api, c.Pairs[0])
 	}
 	conc := make([]c08firstRes, len(c.Pairs))
 	start := make(chan struct{})
@@ -74,6 +96,9 @@ func c08firstRun(c c08firstCase) any {
 	close(start)
 	wg.Wait()
 	o := &c08firstObs{Kind: "ok", N: len(c.Pairs), Diff: []int{}}
+	if apiFirst != nil {
+		o.ApiFirst, o.ApiAgain = apiFirst, c08firstApi(c.Api, c.Pairs[0])
+	}
 	arena := obialign.MakePEAlignArena(150, 150)
 	shifts := make(map[int]int)
 	for i, p := range c.Pairs {
